@@ -963,3 +963,51 @@ def cyclic_evidence_programs(rng, n):
         a.op("STOP")
         out.append(a.assemble())
     return out
+
+
+def dead_storage_programs(rng, bw, n):
+    """storage code that no path executes: behind an unconditional JUMP to a bad target (beyond the code, not a
+    JUMPDEST, inside push data, >= 2^32 / 2^64 with innocent low bits) -- meaningful in permissive mode, where the
+    error is dropped but the thread must still end -- or behind a halting instruction.  A live prefix may touch
+    other slots.  Returns (code, needs_permissive)."""
+    out = []
+    for _ in range(n):
+        a = Asm()
+        live = []
+        for _ in range(rng.randrange(0, 3)):
+            s = rng.choice([1, 2, 3, 2 ** 64 + 1])
+            live.append(s)
+            if rng.random() < 0.5:
+                a.push(rng.choice(bw)).push(s).op("SSTORE")
+            else:
+                a.push(s).op("SLOAD").op("POP")
+        kind = rng.randrange(8)
+        perm = False
+        if kind < 5:
+            perm = True
+            t = rng.choice([0xff, 0xffff, 2 ** 32 + 3, 2 ** 64 + 5, 2 ** 255, 2 ** 256 - 1, 1, 2])
+            a.push(t).op("JUMP")
+        else:
+            if kind == 6:
+                a.push(0).push(0)
+            if kind == 7:
+                a.push(0)
+            a.op({5: rng.choice(["STOP", "INVALID"]), 6: rng.choice(["RETURN", "REVERT"]), 7: "SELFDESTRUCT"}[kind])
+        # the dead part
+        for _ in range(rng.randrange(1, 4)):
+            s = rng.choice([7, 9, 11, 2 ** 128 + 7])
+            r = rng.randrange(4)
+            if r == 0:
+                a.push(0x2a).push(s).op("SSTORE")
+            elif r == 1:
+                a.push(s).op("SLOAD").op("POP")
+            elif r == 2:      # mapping write: keccak(caller . s)
+                a.op("CALLER").push(0).op("MSTORE").push(s).push(0x20).op("MSTORE").push(0x40).push(0).op("SHA3")
+                a.push(1)
+                a.raw([0x90])
+                a.op("SSTORE")
+            else:
+                a.op("JUMPDEST").push(s).op("SLOAD").push(s + 1).op("SSTORE")
+        a.op("STOP")
+        out.append((a.assemble(), perm))
+    return out
